@@ -41,7 +41,7 @@ var (
 
 func newCA(cn string) (*x509.Certificate, *ecdsa.PrivateKey) {
 	key, _ := ecdsa.GenerateKey(elliptic.P256(), rand.Reader)
-	t := &x509.Certificate{SerialNumber: big.NewInt(1), Subject: pkix.Name{CommonName: cn}, NotBefore: time.Now().AddDate(-5, 0, 0), NotAfter: time.Now().AddDate(10, 0, 0),
+	t := &x509.Certificate{SerialNumber: big.NewInt(1), Subject: pkix.Name{CommonName: cn}, NotBefore: time.Date(1990, 1, 1, 0, 0, 0, 0, time.UTC), NotAfter: time.Date(2100, 1, 1, 0, 0, 0, 0, time.UTC),
 		IsCA: true, BasicConstraintsValid: true, KeyUsage: x509.KeyUsageCertSign | x509.KeyUsageDigitalSignature}
 	der, err := x509.CreateCertificate(rand.Reader, t, t, &key.PublicKey, key)
 	if err != nil {
@@ -89,7 +89,13 @@ type c09Cert struct {
 	cert *x509.Certificate
 }
 
-func (p *c09PKI) make(spec c09CertSpec) c09Cert {
+func (p *c09PKI) makeCustom(spec c09CertSpec, ids []string) c09Cert {
+	return p.makeWith(spec, ids, true)
+}
+
+func (p *c09PKI) make(spec c09CertSpec) c09Cert { return p.makeWith(spec, nil, false) }
+
+func (p *c09PKI) makeWith(spec c09CertSpec, customIDs []string, custom bool) c09Cert {
 	key, _ := ecdsa.GenerateKey(elliptic.P256(), rand.Reader)
 	t := &x509.Certificate{SerialNumber: big.NewInt(time.Now().UnixNano()), Subject: pkix.Name{CommonName: "leaf"}, KeyUsage: x509.KeyUsageDigitalSignature}
 	now := time.Now()
@@ -128,6 +134,11 @@ func (p *c09PKI) make(spec c09CertSpec) c09Cert {
 		ids = []string{c09Expected}
 	case "prefix-id":
 		ids = []string{c09Expected + "x", c09Expected[:len(c09Expected)-1], strings.ToLower(c09Expected)}
+	}
+	if custom {
+		ids = customIDs
+		// used inside synctest bubbles, whose clock starts in the year 2000
+		t.NotBefore, t.NotAfter = time.Date(1990, 1, 1, 0, 0, 0, 0, time.UTC), time.Date(2100, 1, 1, 0, 0, 0, 0, time.UTC)
 	}
 	if len(ids)+len(dns) > 0 {
 		var gen []asn1.RawValue
@@ -478,9 +489,12 @@ func init() {
 		Level:     "exploration",
 		Technique: "exhaustive enumeration of the certificate x pin x role x name-mode product against the statement's conjunction: ReceptorVerifyFunc directly, real crypto/tls handshakes with the configs built by PrepareTLS*Config/GetClientTLSConfig, and a mutually authenticated stream listener between real nodes in a synctest bubble",
 		Rule: "certificates = {trusted, other CA, self-signed} x {valid, expired, not yet} x {server, client, both, absent, other EKU} x 8 name sets (expected ID, other, several incl/excl, none, DNS-only, DNS+ID, prefix/extension/case variants); " +
-			"pin lists = 11 kinds (none, sha224/256/384/512 hit, 32/64-byte miss, wrong length, miss-then-hit, hit-then-miss, two misses); roles server/client; name modes receptor/DNS/none. Level 1: all 360 x 66 decisions. Level 2: TLS handshakes (quick: certificates with at most one failing chain condition). Every case is non-trivial (a real certificate is built and judged).",
+			"pin lists = 11 kinds (none, sha224/256/384/512 hit, 32/64-byte miss, wrong length, miss-then-hit, hit-then-miss, two misses); roles server/client; name modes receptor/DNS/none. Level 1: all 360 x 66 decisions. Level 2: TLS handshakes (quick: certificates with at most one failing chain condition). Level 3: a stream listener requiring client certificates between two real nodes (QUIC in a bubble, one process per case): dialer IDs {plain, n:1, a:b:c, with space} x client certificate naming {own ID, another ID, none, the part before the first colon, both} x issuer {trusted, other}. Every case is non-trivial (a real certificate is built and judged).",
 		Assumptions: []string{"absent EKU = unrestricted (RFC 5280)", "ECDSA P-256 leaf keys; x509 path building of Go's standard library is trusted"},
 		Run:         runC09,
+		Exec:        execC09,
+		Coord:       coordC09,
+		OneShot:     true,
 		CaseTimeout: 120 * time.Second,
 	})
 }
